@@ -66,7 +66,7 @@ def c35(t):
     out.extra["source_digest"] = C.repo_digest(LIFT_REAL)
     out.assumptions = [SHIM_NOTE,
         "entries are built the way src/index/updater.rs builds them (push_sat_ranges of concatenated SatRange::store, push_value, push_script_pubkey, push_inscription)",
-        "UtxoEntry element counts are concrete per harness (<= 2 ranges, <= 3 script bytes, <= 1 inscription, or 2 without other parts); element values are fully symbolic except where a bound is stated",
+        "UtxoEntry element counts are concrete per harness (<= 2 ranges, <= 3 script bytes, <= 1 inscription, or 2 without other parts; plus scripts of exactly 128 and (thorough) 300 bytes, whose length needs a 2-byte varint, with <= 1 range and 1 inscription); element values are fully symbolic except where a bound is stated",
         "rune balance lists (encode_rune_balance/decode_rune_balance in src/index.rs) are not covered here",
         "redb itself (that a stored byte string is returned unchanged) is trusted"]
     if not shim_validation(out):
@@ -97,12 +97,15 @@ def c35(t):
         u("c35_utxo_merged_000", "flags 0/0/0", "merged keeps both sides"),
         u("c35_utxo_merged_110_1010", "flags 1/1/0; one range each side", "merged keeps every range of both, in order a then b"),
         u("c35_utxo_merged_100_2010", "flags 1/0/0; two ranges + one range", "merged keeps every range of both"),
+        u("c35_utxo_long_script_128_r0", "flags 1/1/1; no range, a 128-byte script (2-byte length varint) with symbolic content, 1 inscription with any u32 sequence number and offset < 128", "script read back at every index and the inscriptions slice starts exactly after the script"),
+        u("c35_utxo_long_script_128_r1", "flags 1/1/1; 1 symbolic range, a 128-byte script with symbolic content, 1 inscription, offset < 128", "script read back at every index and the inscriptions slice starts exactly after the script"),
     ]
     if t == "thorough":
         specs += [
             u("c35_utxo_bp_010_full", "flags 0/1/0; any u64 value, 3 script bytes"),
             u("c35_utxo_bp_111_n1_b2", "flags 1/1/1; 1 range, 1 script byte, 1 inscription, offset < 2^14"),
             u("c35_utxo_bp_101_n1_b2", "flags 1/0/1; 1 range, 1 inscription, offset < 2^14"),
+            u("c35_utxo_long_script_300_r0", "flags 1/1/1; no range, a 300-byte script with symbolic content, 1 inscription, offset < 128", "script read back at every index and the inscriptions slice starts exactly after the script"),
         ]
     kprop.decide(out, "liftk", K.gen_lift, "t-liftk", specs, jobs=8 if t == "quick" else 6,
                  harness_timeout=900 if t == "quick" else 2400)
